@@ -17,7 +17,7 @@ VERIF = os.path.dirname(os.path.abspath(__file__))
 REPO = os.environ.get('VERIF_REPO', '/repo')
 BUILD = os.path.join(VERIF, 'build')
 HARNESS = os.path.join(VERIF, 'harness')
-EVID = os.path.join(VERIF, 'evidence')
+EVID = os.path.join(VERIF, 'evidence') if REPO == '/repo' else os.environ.get('VERIF_EVIDENCE_DIR', '/dev/shm/jlsverif-mutant-evidence')
 JOBS = int(os.environ.get('VERIF_JOBS', '16'))
 
 LIB_SOURCES = ['bit_shift', 'buffer', 'datatype', 'copy', 'core', 'crc32c', 'ec', 'log', 'msg_ring_buffer', 'raw', 'tmap',
@@ -96,10 +96,10 @@ def build(variant, harness, extra_defs=()):
     try:
         if os.path.exists(exe):
             return exe
-        # prune stale directories of this variant (other tree hashes) and stale bin dirs
-        for d in glob.glob(os.path.join(BUILD, variant + '-*')):
-            if d != libdir:
-                shutil.rmtree(d, ignore_errors=True)
+        # prune stale directories of this variant (other tree hashes; keep the 3 most recent) and stale bin dirs
+        old = sorted((d for d in glob.glob(os.path.join(BUILD, variant + '-*')) if d != libdir), key=os.path.getmtime, reverse=True)
+        for d in old[3:]:
+            shutil.rmtree(d, ignore_errors=True)
         for d in glob.glob(os.path.join(libdir, 'bin-*')):
             if d != bindir:
                 shutil.rmtree(d, ignore_errors=True)
